@@ -12,7 +12,7 @@ import (
 func init() {
 	register(&propDef{
 		ID:       "C03",
-		Explain:  "Decided (structural necessary conditions of replay equivalence): every accepted tree write in Target.GnmiUpdate is announced to the feed callback with the leaf it produced before the next write / exit, and every leaf returned by gnmiRemove is announced from an unconditional loop body; gnmiUpdate withholds a result (nil leaf, nil error) iff the leaf exists, the update is not atomic, value.Equal says unchanged and emulation is on — and still moves the stored value; a returned leaf is the GetLeaf result of the written path, after the write; the caller's notification is written only by the nil/restore pair of the multi arm and the restore runs on every exit; no retained append on a foreign or forked base in cache/subscribe/match/path/client-gnmi/ctree (slice aliasing); multi notifications process all updates before any delete, each on a proto.Clone; value.Equal is sound arm by arm; Reset/Remove announce their deletes. Also decided: completeness of the combined-notification arm (both loops left only through their headers; the delete loop is on every path from the update loop to a return); Reset announces exactly the root it deleted, with path [*] (compared on every explored path, helpers inlined). Round-3 additions: the (updates, deletes) dispatch table; the tree-delete clauses a conditional delete relies on to unlink exactly what it announces (C09 select / prune-guard / conditional, borrowed). Round-4 addition: the delete path announced for a removed leaf is prefix ++ update path in the encoding that carries the elements, replayed for every pure encoding (Elem/Element, elements in prefix/path/both, atomic or not).",
+		Explain:  "Decided (structural necessary conditions of replay equivalence): every accepted tree write in Target.GnmiUpdate is announced to the feed callback with the leaf it produced before the next write / exit, and every leaf returned by gnmiRemove is announced from an unconditional loop body; gnmiUpdate withholds a result (nil leaf, nil error) iff the leaf exists, the update is not atomic, value.Equal says unchanged and emulation is on — and still moves the stored value; a returned leaf is the GetLeaf result of the written path, after the write; the caller's notification is written only by the nil/restore pair of the multi arm and the restore runs on every exit; no retained append on a foreign or forked base in cache/subscribe/match/path/client-gnmi/ctree (slice aliasing); multi notifications process all updates before any delete, each on a proto.Clone; value.Equal is sound arm by arm; Reset/Remove announce their deletes. Also decided: completeness of the combined-notification arm (both loops left only through their headers; the delete loop is on every path from the update loop to a return); Reset announces exactly the root it deleted, with path [*] (compared on every explored path, helpers inlined). Round-3 additions: the (updates, deletes) dispatch table; the tree-delete clauses a conditional delete relies on to unlink exactly what it announces (C09 select / prune-guard / conditional, borrowed). Round-4 addition: the delete path announced for a removed leaf is prefix ++ update path in the encoding that carries the elements, replayed for every pure encoding (Elem/Element, elements in prefix/path/both, atomic or not). Round-5 addition: Cache.Reset runs Target.Reset under Cache.mu, so a Remove cannot put its whole-target delete in the middle of the announcements of a reset.",
 		NotCover: "replay equivalence over histories as such; that delete notifications carry the right path beyond the aliasing rule and the composition table of toDeleteNotification (path elements with keys are taken as opaque units); atomic containers 'never partially visible' beyond one write + one announcement",
 		Run:      runC03,
 	})
